@@ -42,12 +42,15 @@ def run(tier, seed, only=None):
     from .framing_units import framing_units
     units += framing_units((ID,), strict=False)
     units += UU.tunnel_encaps_units((ID,))
+    from .framing_units import encoder_step_units
+    units += encoder_step_units((ID,))
     for u in units:
         if only and u.name not in only:
             continue
         u.props = (ID,)
         run.run_unit(u, prog)
-        run.vacuity_check(u)
+        if u.kind != 'step':
+            run.vacuity_check(u)
     if not only:
         run.run_lemma(Lemma('attribute-flag-categories', lambda: flag_lemma(prog), props=(ID,)))
     run.triage_all(known)
